@@ -82,7 +82,7 @@ Record inv_att (c : config) : Prop := mkIA {
   ia_term_detq : forall s, s_term (c_sess c s) = true -> s_detachq (c_sess c s) = [];
   ia_live_fresh : forall i, i_phase (c_inst c i) <> PDead -> i < c_next c }.
 
-Lemma inv_att_init : forall st ow us, inv_att (init_config st ow us).
+Lemma inv_att_init : forall st ow us ch, inv_att (init_config st ow us ch).
 Proof.
   intros. constructor; simpl; intros; try discriminate; try contradiction; auto; try congruence. constructor.
 Qed.
@@ -119,16 +119,16 @@ Ltac deq :=
 Ltac same_att_tac :=
   repeat split; intros; simpl; unfold on_sess, on_inst, upd; simpl; deq; autorewrite with lc; simpl; auto.
 
-Lemma att_client_sub : forall c s t c', inv_att c -> exec (ClientSub s t) c = Some c' -> inv_att c'.
+Lemma att_client_sub : forall c s t ch c', inv_att c -> exec (ClientSub s t ch) c = Some c' -> inv_att c'.
 Proof.
-  intros c s t c' I Hs. simpl in Hs.
+  intros c s t ch c' I Hs. simpl in Hs.
   destruct (s_term (c_sess c s) || negb (s_inflight (c_sess c s) =? 0)); [discriminate|].
   destruct (lookup t (s_subs (c_sess c s))); inv_some; (eapply inv_att_same; [|exact I]); same_att_tac.
 Qed.
 
-Lemma att_client_leave : forall c s t u c', inv_att c -> exec (ClientLeave s t u) c = Some c' -> inv_att c'.
+Lemma att_client_leave : forall c s t u ch c', inv_att c -> exec (ClientLeave s t u ch) c = Some c' -> inv_att c'.
 Proof.
-  intros c s t u c' I Hs. simpl in Hs.
+  intros c s t u ch c' I Hs. simpl in Hs.
   destruct (s_term (c_sess c s) || negb (s_inflight (c_sess c s) =? 0)); [discriminate|].
   destruct (lookup t (s_subs (c_sess c s))); inv_some; (eapply inv_att_same; [|exact I]); same_att_tac.
 Qed.
@@ -355,6 +355,7 @@ Proof.
   simpl in Hs. inv_some.
   destruct (inactive (c_inst c i)) eqn:Ein; [(eapply inv_att_same; [|exact I]); same_att_tac|].
   destruct (lookup (i_name (c_inst c i)) (s_subs (c_sess c (r_sid r)))) eqn:El; [(eapply inv_att_same; [|exact I]); same_att_tac|].
+  destruct (verify_chan _ _ _) as [aC [|]]; [(eapply inv_att_same; [|exact I]); same_att_tac|].
   destruct ok; [|(eapply inv_att_same; [|exact I]); same_att_tac].
   apply (inv_att_attach c _ (r_sid r) i); auto.
   - intros s0. simpl. unfold on_sess, on_inst, upd. simpl. deq; autorewrite with lc; simpl; auto; congruence.
@@ -545,9 +546,9 @@ Proof.
   - intros j. simpl. unfold on_inst, upd. simpl. destruct (Nat.eqb_spec j i); subst; simpl; auto.
 Qed.
 
-Lemma att_topicunreg : forall c i c', inv_att c -> exec (TopicUnreg i) c = Some c' -> inv_att c'.
+Lemma att_unreg_step : forall c i a e c', inv_att c -> unreg_step c i a e = Some c' -> inv_att c'.
 Proof.
-  intros c i c' I Hs. simpl in Hs.
+  intros c i a e c' I Hs. unfold unreg_step in Hs.
   destruct (i_phase (c_inst c i)) eqn:Ep; simpl in Hs; try discriminate.
   destruct (take_first i (c_tunreg c)) as [[r unreg']|] eqn:E; [|discriminate].
   simpl in Hs. inv_some.
@@ -555,9 +556,12 @@ Proof.
   { destruct (r_init r); (eapply inv_att_same; [|exact I]); same_att_tac. }
   assert (Hleave : forall c1,
             c1 = (if mem (r_sid r) (i_sessions (c_inst c i))
-                  then on_sess (on_inst (set_tunreg c unreg') i (fun y => i_setsessions y (remove_nat (r_sid r) (i_sessions y)))) (r_sid r)
+                  then on_sess (on_inst (set_tunreg c unreg') i (fun y => i_setchansub (i_setsessions y (remove_nat (r_sid r) (i_sessions y)))
+                                                                                         (remove_nat (r_sid r) (i_chansub y)))) (r_sid r)
                          (fun x => let x0 := s_setsubs x (remove_key (i_name (c_inst c i)) (s_subs x)) in
-                                   if r_init r then s_reply x0 (rep r COk) else x0)
+                                   if r_init r
+                                   then s_reply x0 (rep r (if Bool.eqb (mem (r_sid r) (i_chansub (c_inst c i))) a then COk else CNotFound))
+                                   else x0)
                   else set_tunreg c unreg') ->
             inv_att (if r_init r then on_sess c1 (r_sid r) s_donereq else c1)).
   { intros c1 ->. destruct (mem (r_sid r) (i_sessions (c_inst c i))) eqn:Em.
@@ -571,7 +575,8 @@ Proof.
     + apply (Hleave _ eq_refl).
     + destruct (Nat.eqb (c_user c (r_sid r)) (c_owner c (i_name (c_inst c i)))) eqn:Eo.
       * (eapply inv_att_same; [|exact I]); same_att_tac.
-      * apply (inv_att_evictuser c _ i
+      * destruct e; [(eapply inv_att_same; [|exact I]); same_att_tac|].
+        apply (inv_att_evictuser c _ i
                  (fun s' => mem s' (i_sessions (c_inst c i)) && Nat.eqb (c_user c s') (c_user c (r_sid r)))); auto.
         -- intros s0 H. apply andb_true_iff in H. tauto.
         -- intros s0. simpl. unfold on_sess, on_inst, upd. simpl.
@@ -584,6 +589,21 @@ Proof.
     + apply (Hleave _ eq_refl).
     + apply (Hleave _ eq_refl).
   - apply (Hleave _ eq_refl).
+Qed.
+
+(* a reply queued to a session changes nothing of the attachment state *)
+Lemma inv_att_pre404 : forall c r e, inv_att c -> inv_att (pre404 c r e).
+Proof.
+  intros c r e I. eapply inv_att_same; [|exact I].
+  destruct (pre404_frame c r e) as (Ei & En & _). unfold same_att. rewrite Ei, En.
+  split; [reflexivity|]. split; [|auto].
+  intros s. destruct (pre404_sess c r e s) as (A & _ & B & _ & C). auto.
+Qed.
+
+Lemma att_topicunreg : forall c i c', inv_att c -> exec (TopicUnreg i) c = Some c' -> inv_att c'.
+Proof.
+  intros c i c' I Hs. destruct (exec_unreg_inv _ _ _ Hs) as (r0 & rest0 & aC & eR & _ & _ & Hu).
+  eapply att_unreg_step; [|exact Hu]. apply inv_att_pre404. exact I.
 Qed.
 
 Lemma inv_att_step : forall c l c', inv_att c -> step c l c' -> inv_att c'.
@@ -637,3 +657,58 @@ Lemma attached_listed : forall st ow us c, reach st ow us c ->
   forall s i, i_phase (c_inst c i) <> PDead -> mem s (i_sessions (c_inst c i)) = true ->
     lookup (i_name (c_inst c i)) (s_subs (c_sess c s)) = Some i.
 Proof. intros st ow us c Hr. apply (ia_mem_sub _ (inv_att_reach _ _ _ _ Hr)). Qed.
+
+(* ---------- the leave handler detaches BOTH sides in one step, whatever the name form ---------- *)
+
+Lemma mem_remove_nat_same : forall x l, mem x (remove_nat x l) = false.
+Proof. intros. rewrite mem_remove_nat, Nat.eqb_refl, andb_false_r. reflexivity. Qed.
+
+Lemma lookup_remove_key_same : forall t l, lookup t (remove_key t l) = None.
+Proof. intros. rewrite lookup_remove_key, Nat.eqb_refl. reflexivity. Qed.
+
+(* handleLeaveRequest for a {leave} without unsub, or for a session dropped by the server (disconnect, slow
+   consumer): when it returns the topic does not list the session and the session does not list the topic - also on
+   the path where the name form of the request differs from the form the session attached under (answered 404)
+   and on the path where a topic without channel functionality was addressed as a channel (404 and then 200). *)
+Lemma leave_detaches_both_sides : forall c i c' r rest,
+  exec (TopicUnreg i) c = Some c' -> take_first i (c_tunreg c) = Some (r, rest) ->
+  inactive (c_inst c i) = false -> (r_init r = false \/ r_kind r <> KLeave true) ->
+  mem (r_sid r) (i_sessions (c_inst c' i)) = false /\
+  (mem (r_sid r) (i_sessions (c_inst c i)) = true ->
+   lookup (i_name (c_inst c i)) (s_subs (c_sess c' (r_sid r))) = None /\ mem (r_sid r) (i_chansub (c_inst c' i)) = false).
+Proof.
+  intros c i c' r rest Hs E Hin Hk.
+  destruct (exec_unreg_inv _ _ _ Hs) as (r0 & rest0 & aC & eR & E0 & _ & Hu).
+  rewrite E in E0. inversion E0; subst r0 rest0. clear E0.
+  unfold unreg_step in Hu.
+  destruct (pre404_frame c r eR) as (Ei & _ & _ & _ & _ & _ & _ & Eu & _).
+  rewrite Ei, Eu, E in Hu.
+  destruct (negb (is_run (i_phase (c_inst c i)))); [discriminate|]. simpl in Hu. rewrite ?Ei in Hu. rewrite Hin in Hu.
+  assert (Hb : forall c1, c_inst c1 = c_inst c ->
+            (forall s, s_subs (c_sess c1 s) = s_subs (c_sess c s)) ->
+            forall c2, c2 = (if mem (r_sid r) (i_sessions (c_inst c i))
+                  then on_sess (on_inst c1 i (fun y => i_setchansub (i_setsessions y (remove_nat (r_sid r) (i_sessions y)))
+                                                                      (remove_nat (r_sid r) (i_chansub y)))) (r_sid r)
+                         (fun x => let x0 := s_setsubs x (remove_key (i_name (c_inst c i)) (s_subs x)) in
+                                   if r_init r
+                                   then s_reply x0 (rep r (if Bool.eqb (mem (r_sid r) (i_chansub (c_inst c i))) aC then COk else CNotFound))
+                                   else x0)
+                  else c1) ->
+            forall c3, c3 = (if r_init r then on_sess c2 (r_sid r) s_donereq else c2) ->
+            mem (r_sid r) (i_sessions (c_inst c3 i)) = false /\
+            (mem (r_sid r) (i_sessions (c_inst c i)) = true ->
+             lookup (i_name (c_inst c i)) (s_subs (c_sess c3 (r_sid r))) = None /\ mem (r_sid r) (i_chansub (c_inst c3 i)) = false)).
+  { intros c1 E1 E2 c2 -> c3 ->.
+    destruct (mem (r_sid r) (i_sessions (c_inst c i))) eqn:Em.
+    - destruct (r_init r); simpl; unfold on_sess, on_inst, upd; simpl; rewrite ?Nat.eqb_refl; simpl; rewrite E1;
+        autorewrite with lc; simpl; rewrite ?mem_remove_nat_same, ?lookup_remove_key_same; auto.
+    - destruct (r_init r); simpl; rewrite E1, Em; split; auto; discriminate. }
+  destruct (r_init r) eqn:Hri.
+  - destruct Hk as [Hk|Hk]; [discriminate|].
+    destruct (r_kind r) as [|[|]|]; try congruence; inv_some;
+      (eapply (Hb (set_tunreg (pre404 c r eR) rest)); [simpl; exact Ei| |reflexivity|reflexivity]);
+      intros s; simpl; destruct (pre404_sess c r eR s) as (-> & _); reflexivity.
+  - inv_some.
+    (eapply (Hb (set_tunreg (pre404 c r eR) rest)); [simpl; exact Ei| |reflexivity|reflexivity]);
+      intros s; simpl; destruct (pre404_sess c r eR s) as (-> & _); reflexivity.
+Qed.
